@@ -188,7 +188,7 @@ func (g *gen) simpleType(depth int) *Ty {
 	case 3:
 		return prim(lib.Pick(r, []string{"Bool", "Character", "Address", "MetaType", "StoragePath", "PublicPath"}))
 	case 4, 5:
-		return comp(r.Intn(3))
+		return comp(lib.Pick(r, structComps))
 	case 6:
 		if depth > 0 {
 			return varr(g.simpleType(depth - 1))
@@ -202,7 +202,7 @@ func (g *gen) simpleType(depth int) *Ty {
 			return carr(g.simpleType(depth-1), 1+r.Intn(2))
 		}
 	case 9:
-		return inter(lib.Pick(r, [][]int{{0}, {1}, {2}, {0, 2}, {1, 2}})...)
+		return inter(lib.Pick(r, [][]int{{0}, {1}, {2}, {0, 2}, {1, 2}, {5}, {6}})...)
 	case 10:
 		return prim(lib.Pick(r, []string{"Integer", "Number", "HashableStruct", "SignedInteger", "FixedPoint"}))
 	}
@@ -267,13 +267,13 @@ func (g *gen) referentType() *Ty {
 	case 0:
 		return prim("AnyStruct")
 	case 1, 2:
-		return comp(r.Intn(3))
+		return comp(lib.Pick(r, structComps))
 	case 3, 4:
-		return inter(lib.Pick(r, [][]int{{0}, {1}, {2}, {0, 2}, {1, 2}, {0, 1}})...)
+		return inter(lib.Pick(r, [][]int{{0}, {1}, {2}, {0, 2}, {1, 2}, {0, 1}, {5}, {6}})...)
 	case 5:
-		return comp(3 + r.Intn(2)) // reference to a resource
+		return comp(lib.Pick(r, resourceComps)) // reference to a resource
 	case 6:
-		return inter(lib.Pick(r, [][]int{{3}, {4}, {3, 4}})...)
+		return inter(lib.Pick(r, [][]int{{3}, {4}, {3, 4}, {7}, {8}})...)
 	}
 	return g.simpleType(1)
 }
@@ -339,6 +339,9 @@ func (g *gen) distinctKey(p string, i int) (string, *Val) {
 func structFor(is []int) int {
 	need1 := false
 	for _, i := range is {
+		if i == 5 || i == 6 {
+			return i
+		}
 		if i == 1 || i == 2 {
 			need1 = true
 		}
@@ -471,15 +474,24 @@ func (g *gen) genOfType(t *Ty, depth int) (expr string, v *Val, ok bool) {
 		if compIsResource(t.C) {
 			return "", nil, false
 		}
+		if t.C == 10 {
+			// no values of K2.En: in the VM `K2.En.a` (enum case of a same-named contract imported under an
+			// alias) evaluates to the 0x1 enum's case -- a defect of the unchanged tree outside this property;
+			// K2.En is used as a target type only
+			return "", nil, false
+		}
+		if compIsEnum(t.C) {
+			return compCadence[t.C] + ".a", &Val{K: "comp", C: t.C, ID: 0}, true
+		}
 		id := g.freshID()
-		return fmt.Sprintf("%s(%d)", compNames[t.C], id), &Val{K: "comp", C: t.C, ID: id}, true
+		return fmt.Sprintf("%s(%d)", compCadence[t.C], id), &Val{K: "comp", C: t.C, ID: id}, true
 	case "inter":
 		if t.isResource() {
 			return "", nil, false
 		}
 		c := structFor(t.Is)
 		id := g.freshID()
-		return fmt.Sprintf("(%s(%d) as %s)", compNames[c], id, t.cadence()), &Val{K: "comp", C: c, ID: id}, true
+		return fmt.Sprintf("(%s(%d) as %s)", compCadence[c], id, t.cadence()), &Val{K: "comp", C: c, ID: id}, true
 	case "ref":
 		u := t.A
 		if u.containsRef() || u.K == "opt" {
@@ -495,15 +507,15 @@ func (g *gen) genOfType(t *Ty, depth int) (expr string, v *Val, ok bool) {
 				c = u.C
 			case "inter":
 				for _, i := range u.Is {
-					if i == 4 {
-						c = 4
+					if i == 4 || i == 7 || i == 8 {
+						c = i
 					}
 				}
 			default:
 				return "", nil, false
 			}
 			id := g.freshID()
-			g.prelude = append(g.prelude, fmt.Sprintf("let %s <- create %s(%d)", name, compNames[c], id))
+			g.prelude = append(g.prelude, fmt.Sprintf("let %s <- %s", name, createExpr(c, id)))
 			g.epilogue = append(g.epilogue, "destroy "+name)
 			g.resRef = true
 			rv = &Val{K: "comp", C: c, ID: id}
@@ -532,7 +544,7 @@ func (g *gen) genOfType(t *Ty, depth int) (expr string, v *Val, ok bool) {
 		return fmt.Sprintf("getAccount(0x1).capabilities.get<%s>(/public/%s)", t.A.cadence(), p),
 			&Val{K: "cap", T: t.A, Addr: 1, CapID: 0}, true
 	case "capany":
-		b := ref(g.randAuth(), comp(r.Intn(3)))
+		b := ref(g.randAuth(), comp(lib.Pick(r, structComps)))
 		e, v, _ := g.genOfType(capOf(b), depth)
 		return "(" + e + " as Capability)", v, true
 	}
@@ -548,7 +560,7 @@ func (g *gen) genResource() (final string, st *Ty, v *Val) {
 	mk := func(c int) (string, *Ty, *Val) {
 		id := g.freshID()
 		n := g.fresh("q")
-		g.prelude = append(g.prelude, fmt.Sprintf("let %s <- create %s(%d)", n, compNames[c], id))
+		g.prelude = append(g.prelude, fmt.Sprintf("let %s <- %s", n, createExpr(c, id)))
 		return n, comp(c), &Val{K: "comp", C: c, ID: id}
 	}
 	move := func(from string, t *Ty, v *Val) (string, *Val) {
@@ -556,15 +568,16 @@ func (g *gen) genResource() (final string, st *Ty, v *Val) {
 		g.prelude = append(g.prelude, fmt.Sprintf("let %s: %s <- %s", n, t.annot(), from))
 		return n, goBox(v, t)
 	}
-	c := 3 + r.Intn(2)
+	c := lib.Pick(r, resourceComps)
+	own := compConf[c][0] // the interface of the same declaration
 	n, t, v := mk(c)
 	switch r.Intn(8) {
 	case 0, 1:
 		// plain composite
 	case 2:
 		// viewed through an interface
-		t = inter(lib.Pick(r, [][]int{{3}, {3}, {4}})...)
-		if c == 3 {
+		t = inter(own)
+		if c == 4 && r.Bool() {
 			t = inter(3)
 		}
 		n, v = move(n, t, v)
@@ -577,12 +590,12 @@ func (g *gen) genResource() (final string, st *Ty, v *Val) {
 	case 5:
 		// array of resources
 		n2, _, v2 := mk(c)
-		et := lib.Pick(r, []*Ty{comp(c), prim("AnyResource"), inter(3)})
+		et := lib.Pick(r, []*Ty{comp(c), prim("AnyResource"), inter(own)})
 		an := g.fresh("q")
 		g.prelude = append(g.prelude, fmt.Sprintf("let %s: @[%s] <- [<- %s, <- %s]", an, et.cadence(), n, n2))
 		n, t, v = an, varr(et), &Val{K: "array", CS: -1, T: et, Elems: []*Val{v, v2}}
 	case 6:
-		et := lib.Pick(r, []*Ty{comp(c), prim("AnyResource"), inter(3)})
+		et := lib.Pick(r, []*Ty{comp(c), prim("AnyResource"), inter(own)})
 		dn := g.fresh("q")
 		g.prelude = append(g.prelude, fmt.Sprintf("let %s: @{String: %s} <- {\"a\": <- %s}", dn, et.cadence(), n))
 		n, t, v = dn, dict(prim("String"), et), &Val{K: "dict", T: prim("String"), T2: et, Keys: []*Val{{K: "string", S: "a"}}, Elems: []*Val{v}}
@@ -598,3 +611,14 @@ func (g *gen) genResource() (final string, st *Ty, v *Val) {
 }
 
 func bigInt(n int64) *big.Int { return big.NewInt(n) }
+
+// createExpr: resources of the contracts can only be created by the contract
+func createExpr(c int, id int64) string {
+	switch c {
+	case 7:
+		return fmt.Sprintf("K.mkG(%d)", id)
+	case 8:
+		return fmt.Sprintf("K2.mkG(%d)", id)
+	}
+	return fmt.Sprintf("create %s(%d)", compCadence[c], id)
+}
